@@ -1,13 +1,16 @@
 (* Correspondence harness for C01: one case = one traced run of a real algorithm.
-   The snapshots of solutions are shipped once, in a table, and referenced by index. *)
+   The snapshots of solutions are shipped once, in a table, and referenced by index.
+   Two checks per run: the generic skeleton ([accepts], proved sound) and the data flow of the
+   algorithm's own step model, attribute by attribute (Model/AlgSteps.v, [iter_rules]). *)
 From Coq Require Import ZArith Bool List.
 Import ListNotations.
-From PV Require Import Base.Num Model.Evaluate Model.AlgSkeleton Proofs.AlgSkeletonProofs.
+From PV Require Import Base.Num Model.Evaluate Model.AlgSkeleton Model.AlgSteps Proofs.AlgSkeletonProofs.
 Open Scope Z_scope.
 
 Definition c01batch := (list nat * list (option nat) * list nat)%type.   (* before, provenance, after *)
-Definition c01step := (list c01batch * list nat)%type.                    (* batches, exposed *)
+Definition c01step := (list c01batch * list (attr * list nat))%type.      (* batches, what each exposed attribute holds *)
 Record c01case := K1 {
+  k_alg : algid;
   k_types : list ev_ty;
   k_cons : list ev_cdecl;            (* declared constraints *)
   k_tab : list ev_call;              (* every call of the user function logged during the run *)
@@ -17,13 +20,14 @@ Record c01case := K1 {
 
 Definition c01_dflt : ev_sol := mkSol 0%nat [] [] [] ev_zero false false.
 Definition c01_get (k : c01case) (i : nat) : ev_sol := nth i (k_sols k) c01_dflt.
+Definition c01_exposed (k : c01case) (st : c01step) : list ev_sol := map (c01_get k) (flat_map snd (snd st)).
 Definition c01_trace (k : c01case) : trace ev_val ev_num :=
   mkTrace (map (c01_get k) (k_init k))
           (map (fun st : c01step =>
                   mkStep (map (fun b : c01batch =>
                                  mkBatch (map (c01_get k) (fst (fst b))) (snd (fst b)) (map (c01_get k) (snd b)))
                               (fst st))
-                         (map (c01_get k) (snd st)))
+                         (c01_exposed k st))
                (k_steps k)).
 
 (* the logged run is a trace of the skeleton (and the injected solutions are consistent) *)
@@ -31,6 +35,21 @@ Definition c01_check (k : c01case) : bool :=
   forallb ev_wf_ty_b (k_types k) &&
   forallb (ev_safe_b (k_types k) (k_tab k) (k_cons k)) (t_init (c01_trace k)) &&
   ev_accepts (k_types k) (k_tab k) (k_cons k) (c01_trace k).
+
+(* every logged step has the data flow of the algorithm's own step model *)
+Definition ev_sol_eqb : ev_sol -> ev_sol -> bool := sol_eqb ev_val ev_num ev_val_eqb ev_num_eqb.
+Fixpoint c01_flow_steps (k : c01case) (first : bool) (old : amap ev_sol) (steps : list c01step) : bool :=
+  match steps with
+  | [] => true
+  | st :: r =>
+      let new := map (fun p : attr * list nat => (fst p, map (c01_get k) (snd p))) (snd st) in
+      let afters := map (fun b : c01batch => map (c01_get k) (snd b)) (fst st) in
+      shape_ok ev_sol ev_sol_eqb (if first then init_rules (k_alg k) else iter_rules (k_alg k)) old new afters
+      && c01_flow_steps k false new r
+  end.
+Definition c01_flow_check (k : c01case) : bool := c01_flow_steps k true [] (k_steps k).
+
+Definition c01_check_both (k : c01case) : bool := c01_check k && c01_flow_check k.
 
 (* "model first" search when a trace is rejected: is some exposed snapshot not Good? *)
 Definition c01_exposed_good (k : c01case) : bool :=
